@@ -1,8 +1,8 @@
 package props
 
 import (
-	"sort"
 	"go/token"
+	"sort"
 	"strings"
 
 	"verif/checker/internal/an"
@@ -20,9 +20,10 @@ func c05(c *Ctx) {
 		"EncryptMessageWithTempKeys, tabulated over every residue of the payload length mod 16 by evaluating the SSA expression, lie in 0..15 and complete " +
 		"the block; (S) the cut points tried by DecryptMessageWithTempKeys, obtained by iterating the recovered induction variable of its loop for " +
 		"representative lengths, cover every padding 0..15 and never index below 0; the fixed 20-byte prefix split is guarded; (W) nonces enter the temp-key " +
-		"derivation at fixed width."
+		"derivation at fixed width; (K) the temp-key formulas as expressions (E10); (B) the write set of the cipher methods: a field that may hold a window " +
+		"of the caller's input is never a destination."
 	r.NotDecided = []string{"that the block loop computes c_i = AES_k(p_i xor c_{i-1}) xor p_{i-1} for every block count, and that decryption inverts it (numerical; pinned by two test vectors only)",
-		"that the caller's buffers are never modified (write-set through the x/y aliasing)"}
+		"writes to the caller's buffers made by anything other than the Cipher methods themselves"}
 	r.Rule("R05.V", "length validation dominates both block loops; its thresholds are the AES block size", 4)
 	r.Rule("R05.A", "pad-add range: for every residue of the payload length, 0 <= pad <= 15 and (len+pad) % 16 == 0", 2)
 	r.Rule("R05.S", "pad-strip range: every cut point len-p, p in 0..15, is tried and no cut point is negative; the 20-byte hash prefix split is length-guarded", 2)
